@@ -953,7 +953,8 @@ def run(ctx):
             break
     # ... and the geometric predicate of C17_far_no_failed_release (RetainFar.farb) against the harness's drop distance:
     # farb Hrec and farb d hold, farb (d + 1) does not; the model has derr = 0 at lags Hrec and d and derr > 0 at d + 1;
-    # the converse predicate reached_heldb (C17_reached_held_fails) is false at d and true at d + 1
+    # the converse predicate reached_heldb (C17_reached_held_fails) is false at d and true at d + 1; no_edgeb holds (the
+    # files avoid block edges), so C17_layout_outside_classes_bounded applies to them: the property holds for the model
     cs_far_cmp = 0
     if scases:
         fhdr = (vlib.COQ_PRINT_HDR + "From Coq Require Import List NArith Bool.\nImport ListNotations.\n"
@@ -972,10 +973,10 @@ def run(ctx):
             for c, t in zip(scases[k::4], pairs):
                 cs_far_cmp += 1
                 d4 = U.min_drop_distance(layout_of(c), c["bs"])
-                if not (t[1] == 1 and t[2] == 1 and t[3] == 0 and t[4] == 0 and t[5] == 0 and t[6] > 0 and t[7] == 0 and t[8] == 1):
+                if not (t[1] == 1 and t[2] == 1 and t[3] == 0 and t[4] == 0 and t[5] == 0 and t[6] > 0 and t[7] == 0 and t[8] == 1 and t[9] == 1):
                     ctx.obligation_broken("correspondence", "RetainFar.farb / Model.Retain derr vs the harness's drop distance (class predicate of finding F9a and its complement)",
                                           json.dumps(dict(bs=c["bs"], container=c["container"], drop_distance_x4=d4, H_rec=H_rec,
-                                                          coq_row=dict(farb_Hrec=t[1], farb_d=t[2], farb_d1=t[3], derr_Hrec=t[4], derr_d=t[5], derr_d1=t[6], reached_heldb_d=t[7], reached_heldb_d1=t[8]),
+                                                          coq_row=dict(farb_Hrec=t[1], farb_d=t[2], farb_d1=t[3], derr_Hrec=t[4], derr_d=t[5], derr_d1=t[6], reached_heldb_d=t[7], reached_heldb_d1=t[8], no_edgeb=t[9]),
                                                           base=c["base"][:60])))
                     break
     sjobs = [(ci, mu, dict(cf, mult=mu)) for ci, cf in enumerate(sconfigs) for mu in mults]
